@@ -227,6 +227,13 @@ class FunctionDecoratorManager(DecoratorManager):
         def on_func_var_deleted():
             if self.status is DecoratorManagerStatus.RUNNING:
                 self.hass.async_create_task(self.stop())
+            elif self.status is DecoratorManagerStatus.VALIDATED:
+                # not started yet (delayed start) and the function is already gone, e.g. redefined in
+                # the same file: it must not be started later
+                global_ctx = ast_ctx.get_global_ctx()
+                global_ctx.dms_delay_start.discard(self)
+                global_ctx.dms.discard(self)
+                self.update_status(DecoratorManagerStatus.STOPPED)
 
         weakref.finalize(eval_func_var, on_func_var_deleted)
 
